@@ -17,7 +17,7 @@ from io import BytesIO
 
 import numpy as np
 
-from .common import Run, frac_s, guarded, list_s, opt_s, run_driver
+from .common import Run, bool_s, frac_s, guarded, list_s, opt_s, run_driver
 
 logging.getLogger("tifffile").setLevel(logging.CRITICAL)
 
@@ -49,7 +49,26 @@ META = {
     "after its dependencies, overview resampling (rasterio warp), and the byte-stream assembly of the multi-part "
     "writer, which is property C06 (its theorem C06.main is assumed by name; that file bytes = header ++ tiles in "
     "stream order is checked here on every written file).  'Independent readers decode the original pixels' is "
-    "carried by the round trip, not by a theorem. Not yet mirrored in the Lean model (inventory of the anchor files): _tifffile._render_gdal_metadata / _stats_from_layer / _unwrap_stats (statistics values and XML text; only the XML LENGTH enters, via patchedHdrSize), _norm_predictor and _norm_compression_tifffile (codec / level / predictor normalisation: judged end to end by the lossless-unless-asked oracle and the codec probe), _mk_tile_compressor (choice of encoder / predictor functions), _pyramids_from_cog_metadata (overview resampling through odc.reproject), geotiff_metadata beyond the transform tags (GeoKey directory, GDAL_NODATA / GDAL_METADATA text), the repartition(npartitions // 4) of bags with more than 20 partitions (order-preserving: checked end to end by the order correspondence), cog_gbox, the S3 branch (MultiPartUpload) and MPUFileSink (file-system side: exercised by the sink interleaving stage, no Lean model; the byte-stream machinery itself is C06).",
+    "carried by the round trip, not by a theorem.  Growth round: option normalisation is now a Lean model with theorems "
+    "(Model/C05Opts.lean, Props/C05Opts.lean): _norm_predictor, _norm_compression_tifffile (codec spellings, where the level comes "
+    "from: level= > compressionargs > the codec's GDAL-style keyword of any letter case, what stays in kw; the falsy level 0), "
+    "GDAL_COMP, upload parameters from kw / aws, the stats= argument (False / True / a level number incl. the falsy 0: the "
+    "GDAL_METADATA placeholder is reserved exactly when statistics are computed, the level exists), the re-partitioning rule, "
+    "photometric / planarconfig, encoder / predictor choice; compared exactly with the real helpers (looked up defensively: a tree "
+    "without a private helper loses only that direct stream, with a note) and through the public dry run (dst='').  The end-to-end "
+    "matrix also spans: leftover part files of a killed earlier run to the same destination (same names, equal sizes for "
+    "fixed-length encodings, other bytes; all / every other one), every carrier of the nodata value (attrs['nodata'], "
+    "attrs['_FillValue'], both with different numbers, a decoy in encoding['_FillValue']) judged against the intended value, "
+    "stats in {True, False, 0, 1, 2} with an oracle on the STATISTICS_* items (present iff asked; from level 0 equal to the source "
+    "pixels' min / max / mean), spill_sz 0, TIFF predictor numbers 1 / 2 / 3.  Observations (not violations of the statement): "
+    "statistics taken from an overview level count the right / bottom padding pixels when the array has no nodata; a band without "
+    "a valid pixel gets STATISTICS_* = '--' (numpy's masked constant).  NOT mirrored in the Lean model (inventory of the anchor "
+    "files): _tifffile._render_gdal_metadata / _stats_from_layer / _unwrap_stats (statistics values and XML text; only the XML LENGTH "
+    "enters, via patchedHdrSize), _fill_value, _pyramids_from_cog_metadata (overview resampling through odc.reproject), "
+    "geotiff_metadata beyond the transform tags (GeoKey directory, GDAL_NODATA / GDAL_METADATA text), cog_gbox, "
+    "ODCExtensionDa.nodata (attrs['nodata'] then attrs['_FillValue'], as float: oracle only), the S3 branch (MultiPartUpload, "
+    "ContentType, cleanup) and MPUFileSink (file-system side: exercised by the sink interleaving and stale-parts stages, no Lean "
+    "model here — C18 owns it; the byte-stream machinery itself is C06).",
     "technique": "Lean 4 proof over hand model + differential correspondence with real code + end-to-end decode",
     "design_ref": "DESIGN.md §4 C05",
 }
@@ -448,7 +467,10 @@ def gen_cfg(rng: random.Random, big: bool):
         ckw[case("zlevel")] = rng.choice([1, 9])
     if cu == "LERC_ZSTD" and rng.random() < 0.6:
         ckw[case("zstd_level")] = rng.choice([1, 9])
-    pred = rng.choice([None, True, False])
+    pred = rng.choice([None, True, False, "int"])
+    if pred == "int":
+        # the TIFF predictor number itself: 1 = none, 2 = horizontal differencing (integers), 3 = floating point
+        pred = rng.choice([1, 3 if np.dtype(dt).kind == "f" else 2]) if cu != "NONE" else 1
     if (cu == "NONE" and pred is True) or cu.startswith("LERC") or cu in ("JPEG", "WEBP", "PACKBITS"):
         pred = None if cu != "NONE" else False  # predictor only where tifffile allows it (else: rejected configuration)
     if cu in ("JPEG", "WEBP"):
@@ -459,6 +481,9 @@ def gen_cfg(rng: random.Random, big: bool):
             ax, ns = "YXS", 3
     elif rng.random() < 0.08:
         dt = rng.choice(["int64", "uint64", "float16", "int8", "int32"])  # dtypes some codecs cannot take
+    if isinstance(pred, int) and not isinstance(pred, bool) and pred != 1:
+        k_, sz_ = np.dtype(dt).kind, np.dtype(dt).itemsize
+        pred = 3 if (k_ == "f" and sz_ >= 4) else (2 if (k_ in "ui" and sz_ <= 4) else 1)
     if dt == "float64":
         nodata = rng.choice([None, None, 0, -9999, float("nan"), 1.7976931348623157e308, 5e-324, -1e308])
     elif dt == "float32":
@@ -508,13 +533,14 @@ def gen_cfg(rng: random.Random, big: bool):
     out_cfg = dict(
         shape=[ny, nx], axis=ax, ns=ns, dtype=dt, blocksize=bs, comp=comp, ckw=ckw, predictor=pred, nodata=nodata,
         chunks=[cy, cx], irregular=irregular, byteorder=rng.choice(["=", "=", "=", "=", "=", ">"]),
-        dst_state=rng.choice(["fresh", "fresh", "fresh", "existing-small", "existing-large", "parts-dir"]),
+        dst_state=rng.choice(["fresh", "fresh", "fresh", "existing-small", "existing-large", "parts-dir", "stale-parts", "stale-parts-some"]),
         recompute=recompute, bs_container=rng.choice(["list", "list", "tuple"]),
         nd_spell=rng.choice(SPELLINGS), cargs_route=rng.random() < 0.25 and cu not in ("JPEG", "WEBP", "NONE", "LZW", "PACKBITS", "LZMA"),
         sch=band_chunking(rng, ns), mem_layout=rng.choice(MEM_LAYOUTS),
-        spill_sz=rng.choice([None, None, 1, 5000, 20000, 100000]),
+        spill_sz=rng.choice([None, None, 0, 1, 5000, 20000, 100000]),
         wpc=rng.choice([None, None, 1, 2, 3]), bigtiff=rng.choice([None, None, True, False]),
-        stats=rng.choice([True, False, True]),
+        stats=rng.choice([True, False, True, 0, 0, 1, 2]),  # int: statistics from that pyramid level (0 = full resolution; falsy!)
+        nd_carrier=rng.choice(["attrs", "attrs", "fill", "fill", "both"]), nd_enc_decoy=rng.random() < 0.3,
         sched=rng.choice(["sync", "threads1", "threads2", "threads4", "threads8", "rand", "rand", "rand"]),
         pixseed=rng.randint(0, 10**6), level=rng.choice([None, None, 1, 9]) if not ckw and cu in ("DEFLATE", "ZSTD") else None,
         dyadic=rng.random() < 0.75,
@@ -554,7 +580,20 @@ def build_input(cfg, GeoBox, wrap_xr):
     kw = {}
     if ax == "SYX":
         kw["time"] = [f"20{i:02d}-01-01" for i in range(ns)]
-    xx = wrap_xr(dd, gbox, nodata=spell(nodata, cfg.get("nd_spell", "py"), cfg["dtype"]), **kw)
+    # how the array carries its nodata: attrs['nodata'] | attrs['_FillValue'] (rioxarray / CF style) | both (attrs['nodata']
+    # wins, the other holds a different number); independently an encoding['_FillValue'] holding ANOTHER number may be present,
+    # which is not where the accessor documents to look ("nodata/_FillValue attribute").  The intended value is cfg['nodata'].
+    nd_sp = spell(nodata, cfg.get("nd_spell", "py"), cfg["dtype"])
+    other = None if nodata is None and not cfg.get("nd_enc_decoy") else (3 if not same_nodata(nodata, 3) else 5)
+    carrier = cfg.get("nd_carrier", "attrs") if nodata is not None else "attrs"
+    if carrier == "fill":
+        xx = wrap_xr(dd, gbox, _FillValue=nd_sp, **kw)
+    elif carrier == "both":
+        xx = wrap_xr(dd, gbox, nodata=nd_sp, _FillValue=other, **kw)
+    else:
+        xx = wrap_xr(dd, gbox, nodata=nd_sp, **kw)
+    if cfg.get("nd_enc_decoy"):
+        xx.encoding["_FillValue"] = other
     skw = dict(compression=cfg["comp"], stats=cfg["stats"])
     if cfg["blocksize"] is not None:
         b = cfg["blocksize"]
@@ -650,6 +689,15 @@ def sched_of(cfg) -> str:
     return f"rand{cfg['pixseed']}" if cfg["sched"] == "rand" else cfg["sched"]
 
 
+def settle_stats(T, xx, skw, cfg):
+    """`stats=k` asks for the statistics of pyramid level k, which has to exist: clamp the generated number to the levels the
+    configuration really has (dry run)"""
+    if isinstance(skw.get("stats"), int) and not isinstance(skw["stats"], bool) and skw["stats"] > 0:
+        with dask_cfg(cfg):
+            nlv_ = len(T.save_cog_with_dask(xx, "", **dict(skw, stats=False))["meta"].flatten())
+        skw["stats"] = min(skw["stats"], nlv_ - 1)
+
+
 def write_together(cfgs, workdir: str, tags):
     """Build the graphs of several configurations and run them in ONE dask.compute (one scheduler run, shared source
     tasks when the arrays coincide, interleaved multi-part writers).  Returns None or (key, what)."""
@@ -659,6 +707,7 @@ def write_together(cfgs, workdir: str, tags):
             futs = []
             for cfg, tag in zip(cfgs, tags):
                 xx, _, _, skw = build_input(cfg, GeoBox, wrap_xr)
+                settle_stats(T, xx, skw, cfg)
                 fn = os.path.join(workdir, f"{tag}.tif")
                 if os.path.exists(fn):
                     os.unlink(fn)
@@ -708,6 +757,7 @@ def joint_minimal(R: Run, rng: random.Random, workdir: str, k: int):
             for cfg, d_, fn in zip(cfgs, dirs, fns):
                 os.makedirs(d_, exist_ok=True)
                 xx, _, _, skw = build_input(cfg, GeoBox, wrap_xr)
+                settle_stats(T, xx, skw, cfg)
                 futs.append(T.save_cog_with_dask(xx, fn, **dict(skw)))
             res = with_timeout(240.0, lambda: compute_with(futs, sched_of(base)))
     except Exception as e:  # pylint: disable=broad-except
@@ -775,6 +825,7 @@ def e2e(cfg, workdir: str, tag: str, precomputed: bool = False, shared=None):
         lb = bl[-1]
         last_tile = (lb, lb) if isinstance(lb, int) else tuple(lb)
     try:
+        settle_stats(T, xx, skw, cfg)
         with dask_cfg(cfg):
             dry = T.save_cog_with_dask(xx, "", **dict(skw))
         meta = dry["meta"]
@@ -803,6 +854,31 @@ def e2e(cfg, workdir: str, tag: str, precomputed: bool = False, shared=None):
             open(fn, "wb").write(os.urandom(300_000))
         elif st == "parts-dir":
             os.makedirs(os.path.join(workdir, f".{tag}.tif.parts"), exist_ok=True)
+        elif st in ("stale-parts", "stale-parts-some"):
+            # an EARLIER run to the same destination that died at the very end: the same save of another image (same shape,
+            # dtype, layout, options: every pixel differs) with the destination path occupied by a directory, so that the
+            # sink's final move fails after every part file was written.  Its parts directory stays behind with the same part
+            # names (and, for fixed-length encodings, the same sizes) but yesterday's bytes.  "-some": only every other
+            # stale part is kept.  Then the path is cleared and today's save runs: the file must be today's image.
+            pdir = os.path.join(workdir, f".{tag}.tif.parts")
+            os.mkdir(fn)
+            try:
+                day1 = xx.copy(data=(xx.data + xx.dtype.type(1)) if xx.dtype.kind != "f" else (xx.data * xx.dtype.type(-1) + xx.dtype.type(3)))
+                with dask_cfg(cfg):
+                    with_timeout(60, lambda: T.save_cog_with_dask(day1, fn, **dict(skw)).compute(scheduler="synchronous"))
+            except Exception:  # pylint: disable=broad-except
+                pass
+            finally:
+                if os.path.isdir(fn):
+                    os.rmdir(fn)
+                elif os.path.exists(fn):
+                    os.unlink(fn)
+            stale = sorted(os.listdir(pdir)) if os.path.isdir(pdir) else []
+            if st == "stale-parts-some":
+                for k_, name_ in enumerate(stale):
+                    if k_ % 2:
+                        os.unlink(os.path.join(pdir, name_))
+            facts["stale_parts"] = len(stale)
 
     # ---- the real parallel write
     try:
@@ -987,6 +1063,52 @@ def e2e(cfg, workdir: str, tag: str, precomputed: bool = False, shared=None):
                 fails.append(("crs-differs", crs_msg))
             if not same_nodata(f.nodata, cfg["nodata"]):
                 fails.append(("nodata-differs", f"{f.nodata} vs {cfg['nodata']}"))
+            # statistics: present for every band exactly when asked for (stats=False: none; True / a level number incl. 0:
+            # computed from that level); from the full-resolution level they are the numbers of the source pixels
+            st_arg = skw.get("stats", True)
+            want_stats = st_arg is not False
+            st_tags = [{k: v for k, v in f.tags(b + 1).items() if k.startswith("STATISTICS_")} for b in range(f.count)]
+            if any(bool(t) != want_stats for t in st_tags):
+                fails.append(("statistics-presence", f"stats={st_arg!r}: bands carry {[sorted(t) for t in st_tags]}"))
+            elif want_stats:
+                lvl_ = (len(pages) // 2) if st_arg is True else int(st_arg)
+                nd_ = cfg["nodata"]
+                for b, t in enumerate(st_tags):
+                    # a band without a single valid pixel is rendered by the writer as 'nan' or '--' (numpy's masked constant):
+                    # read both as "no valid pixels"
+                    num = lambda v: float("nan") if v.strip() == "--" else float(v)
+                    try:
+                        mn, mx, mean = num(t["STATISTICS_MINIMUM"]), num(t["STATISTICS_MAXIMUM"]), num(t["STATISTICS_MEAN"])
+                    except (KeyError, ValueError) as e_:
+                        fails.append(("statistics-malformed", f"band {b + 1}: {t} ({e_})"))
+                        break
+                    if lvl_ > 0 and (math.isnan(mn) or math.isnan(mx) or math.isnan(mean)):
+                        continue  # an overview level without a single valid pixel (e.g. the level below a 1-row image): nothing to judge
+                    src_b = want[b].astype("float64")
+                    if np.isnan(src_b).any() or (isinstance(nd_, float) and math.isnan(nd_)) or not np.isfinite(src_b).all():
+                        continue
+                    valid = src_b[src_b != nd_] if nd_ is not None else src_b.reshape(-1)
+                    if valid.size == 0 or abs(valid).max() > 1e30:
+                        continue
+                    if math.isnan(mn) or math.isnan(mx) or math.isnan(mean):
+                        fails.append(("statistics-wrong", f"stats={st_arg!r} band {b + 1} has {valid.size} valid pixels but the file carries no numbers: {t}"))
+                        break
+                    lo_, hi_ = float(valid.min()), float(valid.max())
+                    # 6 decimals are printed; the writer accumulates in the precision numpy / dask choose for the source dtype
+                    eps_ = float(np.finfo(want.dtype).eps) if want.dtype.kind == "f" else 0.0
+                    slack = max(1e-6, 8 * eps_) * max(1.0, abs(lo_), abs(hi_)) + 1e-6
+                    if lvl_ == 0 and not lossy and tol == 0:
+                        ok_st = abs(mn - lo_) <= slack and abs(mx - hi_) <= slack and abs(mean - float(valid.mean())) <= slack * 10
+                    else:
+                        # an overview level (nearest: a subset of the source pixels) — inside the source range; without a
+                        # nodata value the right / bottom padding of the pyramid level (fill 0) is counted by the writer too
+                        # (observation, reported: statistics from an overview level include padding pixels)
+                        lo2, hi2 = (min(lo_, 0.0), max(hi_, 0.0)) if nd_ is None else (lo_, hi_)
+                        ok_st = lossy or tol > 0 or (lo2 - slack <= mn <= mx <= hi2 + slack and lo2 - slack <= mean <= hi2 + slack)
+                    if not ok_st:
+                        fails.append(("statistics-wrong", f"stats={st_arg!r} (level {lvl_}) band {b + 1}: file says min {mn} max {mx} mean {mean}, "
+                                      f"source pixels min {lo_} max {hi_} mean {float(valid.mean())}"))
+                        break
             ovs = f.overviews(1)
             if len(ovs) != len(pages) - 1:
                 fails.append(("gdal-overview-count", f"GDAL sees overviews {ovs}, file has {len(pages) - 1}"))
@@ -1170,7 +1292,9 @@ def sink_race_case(schedule, nthreads, workdir, tag):
         return builtins.open(*a, **k)
 
     dst = os.path.join(workdir, f"{tag}.bin")
-    old_path, had_open = FS.Path, "open" in FS.__dict__
+    if getattr(FS, "Path", None) is not pathlib.Path or getattr(FS, "MPUFileSink", None) is None:
+        return None  # the sink reaches the file system some other way than through `Path` / `open`: no scheduling points, nothing forced
+    old_path, had_open = FS.Path, "open" in vars(FS)
     FS.Path, FS.open = YPath, yopen
     try:
         sink = FS.MPUFileSink(dst)
@@ -1232,6 +1356,21 @@ def run_e2e(R: Run, cfg, workdir: str, tag: str, precomputed: bool = False, shar
 # --------------------------------------------------------------------------- main
 def run(R: Run):
     # pylint: disable=too-many-locals,too-many-branches,too-many-statements
+    _missing = set()
+
+    def have(*names):
+        """private helpers of odc.geo.cog._tifffile are looked up defensively: a tree that no longer has one under this name
+        loses only the DIRECT stream that calls it (the public save_cog_with_dask route still reaches the code); noted once"""
+        ok_ = True
+        mod_ = _imp()[2]
+        for n_ in names:
+            if getattr(mod_, n_, None) is None:
+                ok_ = False
+                if n_ not in _missing:
+                    _missing.add(n_)
+                    R.notes.append(f"odc.geo.cog._tifffile.{n_} not found: the direct streams using it are skipped, behaviour is judged through save_cog_with_dask")
+        return ok_
+
     M, S, T, GeoBox, wrap_xr = _imp()
     from affine import Affine  # pylint: disable=import-outside-toplevel
     from odc.geo.types import shape_  # pylint: disable=import-outside-toplevel
@@ -1387,6 +1526,8 @@ def run(R: Run):
     import tifffile  # pylint: disable=import-outside-toplevel
 
     def hdr_case(shape, gbox, blocks, check_bytes=False):
+        if not have("_make_empty_cog"):
+            return
         res = []
 
         def f():
@@ -1445,7 +1586,7 @@ def run(R: Run):
     import dask  # pylint: disable=import-outside-toplevel
     import dask.array as da_  # pylint: disable=import-outside-toplevel
 
-    for _ in range(R.pick(30, 400)):
+    for _ in range(R.pick(30, 400) if have("_make_empty_cog", "_compress_tiles", "_compress_cog_tile", "_cog_block_compressor_syx") else 0):
         ax = rng.choice(["YX", "YXS", "SYX", "SYX"])
         ns = 1 if ax == "YX" else rng.randint(1, 5)
         ny, nx = rng.randint(16, 60), rng.randint(16, 60)
@@ -1467,7 +1608,7 @@ def run(R: Run):
                 bag = T._compress_tiles(xx, meta, 0, s_)  # pylint: disable=protected-access
                 g = bag.__dask_graph__()
                 tasks = [t for layer in g.layers.values() for t in dict(layer).values()
-                         if isinstance(t, tuple) and len(t) == 4 and t[0] is T._compress_cog_tile]  # pylint: disable=protected-access
+                         if isinstance(t, tuple) and len(t) == 4 and t[0] is getattr(T, "_compress_cog_tile", None)]
                 t_ = rng.choice(tasks)
                 key, (_, ps, ty_, tx_) = t_[2], t_[3]
                 real_key = (f"N {key[1]} {key[2]}" if ndim == 2 else (f"{key[3]} {key[1]} {key[2]}" if ax == "YXS" else f"{key[1]} {key[2]} {key[3]}"))
@@ -1492,7 +1633,7 @@ def run(R: Run):
                      f"{type(e).__name__}: {str(e)[:160]}", sig="compress")
 
     # ---- grouping of the bags handed to mpu_write (first four reversed bags concatenated) and the patched header size
-    for _ in range(R.pick(5, 60)):
+    for _ in range(R.pick(5, 60) if have("mpu_write") else 0):
         ns = rng.randint(1, 4)
         ny, nx = rng.choice([(20, 20), (40, 20), (70, 40), (130, 20)])
         shp = (ny, nx) if ns == 1 else (ns, ny, nx)
@@ -1524,6 +1665,8 @@ def run(R: Run):
             R.oracle(sorted(flat) == list(range(n_bags)) and len(flat) == n_bags, "bag-not-written-exactly-once", {"shape": list(shp), "groups": groups},
                      f"bags streamed: {groups}", sig="baggroups")
         # header size with statistics
+        if not have("_make_empty_cog", "_render_gdal_metadata", "_patch_hdr"):
+            continue
         try:
             meta, hdr0 = T._make_empty_cog(shp, "uint8", xx.odc.geobox, blocksize=[16], gdal_metadata="", bigtiff=rng.random() < 0.6)  # pylint: disable=protected-access
             hdr0 = bytes(hdr0)
@@ -1534,8 +1677,143 @@ def run(R: Run):
         except Exception as e:  # pylint: disable=broad-except
             R.oracle(False, f"patch-hdr-raises:{type(e).__name__}", {"shape": list(shp)}, str(e)[:160], sig="hdrsz")
 
+    # ---- option normalisation (Model/C05Opts.lean): _norm_predictor, _norm_compression_tifffile (codec names of any letter
+    # case, level from level= / compressionargs / the GDAL-style keyword of any letter case incl. the falsy level 0, what is
+    # left in kw), upload parameters from kw / aws, the stats= argument (False / True / level number incl. 0)
+    from odc.geo.types import Unset  # pylint: disable=import-outside-toplevel
+
+    def kw_s(d):
+        return "{" + ",".join(f"{k}={v}" for k, v in d.items()) + "}"
+
+    def cargs_s(d):
+        return "{" + ",".join(f"{k}=<level={v['level']}>" if isinstance(v, dict) else f"{k}={v}" for k, v in d.items()) + "}"
+
+    def pred_s(p_):
+        return "U" if isinstance(p_, Unset) else ("N" if p_ is None else (bool_s(p_) if isinstance(p_, bool) else f"i:{p_}"))
+
+    DT_POOL = ["uint8", "int8", "uint16", "int16", "uint32", "int32", "uint64", "int64", "float16", "float32", "float64", "bool", "complex64"]
+    if have("_norm_predictor"):
+        for dtn in DT_POOL:
+            for p_ in (None, True, False, 0, 1, 2, 3, 34892):
+                dt_ = np.dtype(dtn)
+                R.corr(f"c05 npred {pred_s(p_)} {dt_.kind} {dt_.itemsize}", lambda: str(T._norm_predictor(p_, dtn)),  # pylint: disable=protected-access
+                       sig="opts|norm_predictor|" + type(p_).__name__)
+    CODECS = ["deflate", "DEFLATE", "adobe_deflate", "zstd", "Zstd", "lzma", "lzw", "packbits", "none", "lerc", "LERC", "lerc_deflate",
+              "Lerc_Deflate", "lerc_zstd", "LERC_ZSTD", "webp", "jpeg", "JPEG", "jpeg2000", "bogus"]
+    LEVELS = [0, 1, 6, 9, 0.5, 0.0, 75]
+
+    def ncomp_case(dtn, pred, comp, cargs, level, kw, sig):
+        dt_ = np.dtype(dtn)
+        line = (f"c05 ncomptiff {dt_.kind} {dt_.itemsize} {pred_s(pred)} {'N' if isinstance(comp, Unset) else 's:' + comp} "
+                f"{'N' if cargs is None else kw_s(cargs)} {'N' if level is None else 's:' + str(level)} {kw_s(kw)}")
+
+        def f():
+            kw_ = dict(kw)
+            ca_in = None if cargs is None else dict(cargs)
+            p_, c_, ca_ = T._norm_compression_tifffile(dtn, pred, compression=comp, compressionargs=ca_in, level=level, kw=kw_)  # pylint: disable=protected-access
+            if ca_in is not None and ca_in != cargs:
+                return "caller-compressionargs-modified"
+            return f"{int(p_)} {c_} {cargs_s(ca_)} {kw_s(kw_)}"
+
+        R.corr(line, f, sig=sig)
+
+    if have("_norm_compression_tifffile"):
+        nopt = 0
+        for comp in CODECS:
+            gk = {"DEFLATE": "zlevel", "ADOBE_DEFLATE": "zlevel", "ZSTD": "zstd_level", "WEBP": "webp_level", "LERC": "max_z_error",
+                  "LERC_DEFLATE": "max_z_error", "LERC_ZSTD": "max_z_error", "JPEG": "jpeg_quality"}.get(comp.upper())
+            for src in ("none", "level", "cargs", "gdal", "gdal-upper", "level+gdal", "cargs+gdal", "inner", "inner+own", "foreign"):
+                for lv in (0, 6) if src != "none" else (None,):
+                    nopt += 1
+                    kw, cargs, level = {"tile_opt": 1} if nopt % 3 == 0 else {}, None, None
+                    if "level" in src.split("+"):
+                        level = lv
+                    if "cargs" in src.split("+"):
+                        cargs = {"level": lv, "other": 1}
+                    if "gdal" in src or src == "gdal-upper" or src == "inner+own":
+                        if gk is None:
+                            continue
+                        kw[gk.upper() if src == "gdal-upper" or nopt % 2 else gk] = 9 if src != "gdal" else lv
+                    if src.startswith("inner"):
+                        kw["ZLEVEL" if nopt % 2 else "zlevel"] = lv
+                        kw["zstd_level"] = 3
+                    if src == "foreign":
+                        kw.update(webp_level=lv, JPEG_QUALITY=80, max_z_error=0.5, zlevel=1, zstd_level=2)
+                    ncomp_case(DT_POOL[nopt % len(DT_POOL)], [Unset(), Unset(), True, False, None, 2][nopt % 6], comp, cargs, level, kw,
+                               f"opts|norm_compression|{src}|lvl={'0' if lv == 0 else ('none' if lv is None else 'n')}")
+        for src_kw in ({}, {"compress": "zstd"}, {"compress": "lerc_zstd", "zstd_level": 0, "MAX_Z_ERROR": 0.0}, {"COMPRESS": "zstd"}, {"compress": "deflate", "ZLEVEL": 0}):
+            for dtn in ("uint8", "float32", "int64"):
+                ncomp_case(dtn, Unset(), Unset(), None, None, src_kw, "opts|norm_compression|unset-codec")
+        for _ in range(R.pick(200, 3000)):
+            kw = {}
+            for k_ in rng.sample(["zlevel", "ZLEVEL", "Zlevel", "zstd_level", "ZSTD_LEVEL", "max_z_error", "MAX_Z_ERROR", "webp_level", "jpeg_quality",
+                                  "JPEG_QUALITY", "compress", "tile_opt", "level_x"], rng.randint(0, 4)):
+                kw[k_] = rng.choice(LEVELS) if k_ != "compress" else rng.choice(CODECS[:16])
+            cargs = rng.choice([None, None, {}, {"level": rng.choice(LEVELS)}, {"lossless": 1}])
+            ncomp_case(rng.choice(DT_POOL), rng.choice([Unset(), Unset(), None, True, False, 1, 2, 3]), rng.choice([Unset()] + CODECS),
+                       cargs, rng.choice([None, None] + LEVELS), kw, "opts|norm_compression|random")
+    for c_ in ["DEFLATE", "ADOBE_DEFLATE", "ZSTD", "WEBP", "LERC", "LERC_DEFLATE", "LERC_ZSTD", "JPEG", "LZW", "NONE", "deflate", "LZMA", "PACKBITS"]:
+        R.corr(f"c05 gdalcomp {c_}", lambda: str(S.GDAL_COMP.get(c_, "N")), sig="opts|gdal_comp")
+
+    # the stats= argument and the upload parameters, through the public dry run (dst=""): is the GDAL_METADATA placeholder in the
+    # header, are statistics computed, and FROM WHICH pyramid level (identified by their values)
+    for k_st, (st_arg, ny_, nx_) in enumerate([(True, 40, 40), (False, 40, 40), (0, 40, 40), (1, 40, 40), (2, 40, 40), (0, 16, 16), (True, 16, 16),
+                                               (1, 16, 16), (True, 100, 70), (2, 100, 70), (3, 100, 70), (4, 100, 70), (True, 300, 20), (0, 300, 20)][: R.pick(9, 14)]):
+        pix_ = (np.arange(ny_ * nx_, dtype="int32").reshape(ny_, nx_) * 7919 % 30011).astype("uint16") + 1
+        xx_ = wrap_xr(da_.from_array(pix_, chunks=(16, 16)), GeoBox((ny_, nx_), Affine(1, 0, 0, 0, -1, 0), "epsg:3857"))
+
+        def f():
+            dry_ = T.save_cog_with_dask(xx_, "", blocksize=[16], compression="zstd", stats=st_arg)
+            tag_ = any(t_.code == 42112 for t_ in tifffile.TiffFile(BytesIO(bytes(dry_["hdr0"]))).pages[0].tags.values())
+            st_ = dry_.get("_stats")
+            if st_ is None:
+                return f"{bool_s(tag_)} N"
+            vals = st_.compute(scheduler="synchronous")[0]
+            hits = [i for i, l_ in enumerate(dry_["layers"])
+                    if abs(float(np.asarray(l_.data).max()) - vals["maximum"]) < 1e-9 and abs(float(np.asarray(l_.data).mean()) - vals["mean"]) < 1e-6]
+            return f"{bool_s(tag_)} {hits[0] if hits else '?'}"
+
+        def n_layers():
+            return len(T.save_cog_with_dask(xx_, "", blocksize=[16], compression="zstd", stats=False)["layers"])
+
+        nl_ = guarded(lambda: str(n_layers()))
+        if nl_.isdigit():
+            R.corr(f"c05 stats {bool_s(st_arg) if isinstance(st_arg, bool) else 'i:%d' % st_arg} {nl_}", f,
+                   sig=f"opts|stats|{type(st_arg).__name__}|{'falsy' if not st_arg else 'truthy'}")
+    for _ in range(R.pick(10, 60)):
+        kw_ = {k: rng.randint(0, 9) for k in rng.sample(["writes_per_chunk", "spill_sz", "other"], rng.randint(0, 3))}
+        aws_ = {k: rng.randint(10, 19) for k in rng.sample(["writes_per_chunk", "spill_sz", "region_name"], rng.randint(0, 3))}
+        rec_ = {}
+
+        def f():
+            orig_ = getattr(T, "mpu_write", None)
+            pix_ = np.zeros((16, 16), dtype="uint8")
+            xx_ = wrap_xr(da_.from_array(pix_, chunks=(16, 16)), GeoBox((16, 16), Affine(1, 0, 0, 0, -1, 0), "epsg:3857"))
+            aws_in = dict(aws_)
+            T.mpu_write = lambda chunks, write, **k: rec_.update(k) or "recorded"
+            try:
+                T.save_cog_with_dask(xx_, "/nonexistent/x.tif", blocksize=[16], compression="zstd", stats=False, aws=aws_in,
+                                     **{k: v for k, v in kw_.items() if k != "other"})
+            finally:
+                T.mpu_write = orig_
+            got = {k: v for k, v in rec_.items() if k in ("writes_per_chunk", "spill_sz")}
+            if aws_in != aws_:
+                return "caller-aws-modified"
+            return kw_s({k: got[k] for k in ("spill_sz", "writes_per_chunk") if k in got})
+
+        if have("mpu_write"):
+            kw_m = {k: v for k, v in kw_.items() if k != "other"}
+            R.corr(f"c05 upmerged {kw_s(kw_m)} {kw_s(aws_)}", f, sig="opts|upload_params|" + ("both" if set(kw_m) & set(aws_) else "disjoint"))
+    # bags with more than 20 partitions are re-partitioned to a quarter: observed on the dry run's level-0 bag
+    for n_ in R.pick([5, 10, 11, 42], [1, 2, 5, 9, 10, 11, 12, 19, 20, 21, 40, 41, 42, 84]):
+        xx_ = wrap_xr(da_.zeros((16, 16 * n_), dtype="uint8", chunks=(16, 16)), GeoBox((16, 16 * n_), Affine(1, 0, 0, 0, -1, 0), "epsg:3857"))
+        dry_ = guarded(lambda: T.save_cog_with_dask(xx_, "", blocksize=[16], compression="zstd", stats=False))
+        if isinstance(dry_, dict):
+            for m_, bag_ in zip(dry_["meta"].flatten(), dry_["tiles"]):
+                R.corr(f"c05 repart {m_.num_tiles}", lambda: str(bag_.npartitions), sig="opts|repartition|" + ("over20" if m_.num_tiles > 20 else "upto20"))
+
     # ---- tile padding in the block compressors (no encoder → raw bytes of the padded block)
-    for _ in range(R.pick(150, 1500)):
+    for _ in range(R.pick(150, 1500) if have("_cog_block_compressor_yxs", "_cog_block_compressor_syx") else 0):
         ty, tx = rng.choice([16, 32]), rng.choice([16, 32, 48])
         N, Mx = rng.randint(1, 100), rng.randint(1, 100)
         iy, ix = rng.randrange(-(-N // ty)), rng.randrange(-(-Mx // tx))
@@ -1557,6 +1835,8 @@ def run(R: Run):
 
     # ---- _extract_tile_info / _patch_hdr on arbitrary observed streams (any order, zero sizes, bad ids)
     def stream_case(meta, hdr0, with_patch):
+        if not have("_extract_tile_info", "_patch_hdr"):
+            return
         ms = list(meta.flatten())
         idx = list(meta.cog_tidx())
         rng.shuffle(idx)
@@ -1615,7 +1895,7 @@ def run(R: Run):
             hsz = out.split(" ")[0] if r2 else "0"
             R.corr(f"c05 patch {list_s(ms, meta_s)} {hsz} {obs}", lambda: out.split(" ", 1)[1] if r2 else out, sig="patch|" + sig)
 
-    for _ in range(R.pick(60, 600)):
+    for _ in range(R.pick(60, 600) if have("_make_empty_cog") else 0):
         y, x = rng.randint(1, 120), rng.randint(1, 120)
         ns = rng.randint(1, 3)
         shape = rng.choice([[y, x], [ns, y, x], [y, x, ns]])
@@ -1671,7 +1951,7 @@ def run(R: Run):
                 g = bag.__dask_graph__()
                 for layer in g.layers.values():
                     for task in dict(layer).values():
-                        if isinstance(task, tuple) and len(task) == 4 and task[0] is T._compress_cog_tile and task[2] not in g:  # pylint: disable=protected-access
+                        if isinstance(task, tuple) and len(task) == 4 and task[0] is getattr(T, "_compress_cog_tile", None) and task[2] not in g:
                             missing += 1
             bad = [] if not missing else [f"{missing} tile tasks reference a source block that does not exist"]
             if hasattr(T, "_pad_to_cog_shape"):
@@ -1687,7 +1967,7 @@ def run(R: Run):
     workdir = tempfile.mkdtemp(prefix="c05-")
     try:
         n_e2e = R.pick(170, 4200)
-        t_budget = R.pick(22, 440)
+        t_budget = R.pick(22, 220)
         t0 = time.time()
         corpus = [
             dict(shape=[8, 200], axis="YX", ns=1, dtype="uint8", blocksize=[32], comp="deflate", predictor=None, nodata=None,
@@ -1744,6 +2024,26 @@ def run(R: Run):
         must_ = [c_ for c_ in lay_m if c_.get("mem_layout") in ("F", "lazyT") and c_["comp"] == "none"][:3] + [c_ for c_ in lay_m if "mem_layout" not in c_][:4]
         corpus += lay_m if not R.quick else must_ + rng.sample([c_ for c_ in lay_m if c_ not in must_], 10)
         corpus += fam_e2e
+        state_opt = [
+            # documented option values that are falsy but meaningful, and the plain numbers behind the booleans
+            dict(base_cfg, stats=0), dict(base_cfg, stats=1, shape=[100, 70]), dict(base_cfg, stats=0, axis="SYX", ns=2, nodata=7, nd_carrier="fill"),
+            dict(base_cfg, spill_sz=0, wpc=1), dict(base_cfg, level=0), dict(base_cfg, comp="zstd", ckw={"zstd_level": 0}),
+            dict(base_cfg, predictor=2), dict(base_cfg, predictor=1), dict(base_cfg, dtype="float32", predictor=3, comp="zstd"),
+            dict(base_cfg, blocksize=32), dict(base_cfg, nodata=0, nd_carrier="fill"), dict(base_cfg, nodata=0, nd_carrier="both", nd_enc_decoy=True),
+            dict(base_cfg, nodata=None, nd_enc_decoy=True), dict(base_cfg, dtype="float32", nodata=-9999, nd_carrier="fill", stats=0),
+            # leftover part files of a killed earlier run to the same destination, same names and (uncompressed / float
+            # predictor-less: same) sizes, other bytes; all of them / every other one; several parts (spill) / one part
+            dict(base_cfg, shape=[64, 96], comp="none", predictor=False, dst_state="stale-parts", spill_sz=1, wpc=2, stats=False),
+            dict(base_cfg, shape=[64, 96], comp="none", predictor=False, dst_state="stale-parts", stats=True, axis="SYX", ns=2, sch=1),
+            dict(base_cfg, shape=[64, 96], comp="none", predictor=False, dst_state="stale-parts-some", spill_sz=5000, wpc=3, sched="threads2"),
+            dict(base_cfg, shape=[96, 64], comp="packbits", dtype="uint8", dst_state="stale-parts", spill_sz=1, wpc=2),
+            dict(base_cfg, dst_state="stale-parts", spill_sz=1, wpc=3, sched="rand"),
+            dict(base_cfg, shape=[100, 70], dtype="float32", comp="zstd", dst_state="stale-parts-some", spill_sz=1, wpc=2),
+        ]
+        # quick tier: the first stale-parts case, stats=0, spill_sz=0, the _FillValue carrier and a seeded sample of the rest
+        must_so = [c_ for c_ in state_opt if c_.get("dst_state") == "stale-parts"][:1] + [c_ for c_ in state_opt if c_.get("stats") == 0 and "nd_carrier" not in c_][:1] + \
+                  [c_ for c_ in state_opt if c_.get("spill_sz") == 0][:1] + [c_ for c_ in state_opt if c_.get("nd_carrier") == "fill"][:1]
+        corpus += state_opt if not R.quick else must_so + rng.sample([c_ for c_ in state_opt if c_ not in must_so], 5)
         done = 0
         for i, cfg in enumerate(corpus):
             if uncompressed_single_tile_level(cfg):
@@ -1802,6 +2102,8 @@ def run(R: Run):
         from odc.geo.cog._mpu_fs import MPUFileSink  # pylint: disable=import-outside-toplevel
 
         def handoff_case(k):
+            if not have("_make_empty_cog", "_patch_hdr"):
+                return
             y, x, ns = rng.randint(1, 150), rng.randint(1, 150), rng.randint(1, 3)
             shape = rng.choice([[y, x], [ns, y, x]])
             meta, hdr0 = T._make_empty_cog(tuple(shape), "uint8", mk_gbox(rng, y, x, GeoBox),  # pylint: disable=protected-access
@@ -1921,7 +2223,14 @@ def run(R: Run):
         # probe of the known finding: uncompressed + a level of exactly one tile → `_make_empty_cog` never returns
         probe = {"fn": "_make_empty_cog", "shape": [32, 32], "gbox": "N", "blocksize": ["16"], "compression": "none"}
         try:
-            with_timeout(4.0, lambda: T._make_empty_cog((32, 32), "uint8", None, blocksize=[16], compression="none"))  # pylint: disable=protected-access
+            if have("_make_empty_cog"):
+                with_timeout(4.0, lambda: T._make_empty_cog((32, 32), "uint8", None, blocksize=[16], compression="none"))  # pylint: disable=protected-access
+            else:  # the public route into the same header writer (dry run: dst="")
+                import dask.array as _da  # pylint: disable=import-outside-toplevel
+                import xarray as _xr  # pylint: disable=import-outside-toplevel
+
+                with_timeout(4.0, lambda: T.save_cog_with_dask(_xr.DataArray(_da.zeros((32, 32), dtype="uint8", chunks=(16, 16)), dims=("y", "x")),
+                                                               "", blocksize=[16], compression="none", stats=False))
             hung = False
         except _Timeout:
             hung = True
@@ -1949,6 +2258,8 @@ def search(R: Run, mismatches):
     _, S, T, GeoBox, _ = _imp()
     from affine import Affine  # pylint: disable=import-outside-toplevel
 
+    if getattr(T, "_make_empty_cog", None) is None:
+        return None
     for y in list(range(1, 70)) + [100, 127, 128, 129, 255, 256, 257, 300, 1000]:
         for x in (1, 3, 16, 17, 40, 200, y):
             for b in (16, 32, 48, 100):
@@ -1998,7 +2309,11 @@ def replay(R: Run, rec) -> int:
         return 1 if bad else 0
     if key.startswith("make-empty-cog-hangs"):
         try:
-            with_timeout(4.0, lambda: T._make_empty_cog(tuple(case["shape"]), "uint8", None, blocksize=[16], compression="none"))  # pylint: disable=protected-access
+            fn_ = getattr(T, "_make_empty_cog", None)
+            if fn_ is None:
+                print("no _make_empty_cog in this tree")
+                return 0
+            with_timeout(4.0, lambda: fn_(tuple(case["shape"]), "uint8", None, blocksize=[16], compression="none"))
             print("returned")
             return 0
         except _Timeout:
